@@ -1,0 +1,16 @@
+//go:build verif
+
+package idempotency
+
+// VerifYield, when set, is called inside MemoryLock between its critical sections (verification
+// harness only: scheduling points). point 'a': Lock, after the block under l.mu (entry looked up or
+// created, locked++) and before lock.mu.Lock(); 'u': Unlock, after the lookup under l.mu and before
+// lock.mu.Unlock(); 'd': Unlock, after lock.mu.Unlock() and before the block under l.mu (locked--,
+// delete at zero).
+var VerifYield func(point byte, key string)
+
+func verifYield(point byte, key string) {
+	if f := VerifYield; f != nil {
+		f(point, key)
+	}
+}
